@@ -352,7 +352,7 @@ let spec prop inp out =
   | Some reason ->
     let t1 = !taint_f1 and t2 = !taint_f2 in
     if eval_with M.pinned inp <> out then Some reason
-    else if not (t1 || t2) then Some (reason ^ " [no F1/F2 trigger since the last reset]")
+    else if not (t1 || t2) then Some (reason ^ " [not a known finding: no F1/F2 trigger since the last reset]")
     else if check prop inp (eval_with M.repaired inp) <> None then Some reason
     else if t1 && (not t2 || check prop inp (eval_with (M.mk_variant false true) inp) = None) then begin
       incr known_f1;
